@@ -26,8 +26,13 @@ def solve(formula, display=True, log=False, params={}):
     except AttributeError:
         pass
 
-    bool_idx = [i for i in range(len(formula.vtype)) if formula.vtype[i] == 'B']
-    int_idx = [i for i in range(len(formula.vtype)) if formula.vtype[i] == 'I']
+    # binaries are passed as integers within [0, 1]: ECOS_BB mixes up the
+    # bounds of the two kinds unless every binary column precedes every
+    # integer column
+    bool_bin = (np.array(formula.vtype) == 'B')
+    int_idx = [i for i in range(len(formula.vtype)) if formula.vtype[i] in 'BI']
+    lower = np.where(bool_bin, np.maximum(formula.lb, 0), formula.lb)
+    upper = np.where(bool_bin, np.minimum(formula.ub, 1), formula.ub)
 
     cols = formula.linear.shape[1]
     eq_idx = np.argwhere(formula.sense == 1).flatten()
@@ -38,12 +43,12 @@ def solve(formula, display=True, log=False, params={}):
 
     Gl = formula.linear[ineq_idx]
 
-    zlb_idx = np.argwhere(formula.lb > -np.inf).flatten()
+    zlb_idx = np.argwhere(lower > -np.inf).flatten()
     num_zlb = len(zlb_idx)
     Glb = sp.csr_matrix((-np.ones(num_zlb),
                          (np.arange(num_zlb, dtype='int'), zlb_idx)),
                         (num_zlb, cols))
-    zub_idx = np.argwhere(formula.ub < np.inf).flatten()
+    zub_idx = np.argwhere(upper < np.inf).flatten()
     num_zub = len(zub_idx)
     Gub = sp.csr_matrix((np.ones(num_zub),
                          (np.arange(num_zub, dtype='int'), zub_idx)),
@@ -70,8 +75,8 @@ def solve(formula, display=True, log=False, params={}):
 
     G = sp.csc_matrix(sp.vstack([Gl, Glb, Gub] + Gsc + Gec))
     h = np.hstack((formula.const[ineq_idx],
-                   -formula.lb[zlb_idx],
-                   formula.ub[zub_idx],
+                   -lower[zlb_idx],
+                   upper[zub_idx],
                    np.zeros(sum(sc_dim)), np.zeros(len(xmat)*3)))
 
     dims = {'l': num_ineq + num_zlb + num_zub,
@@ -86,7 +91,7 @@ def solve(formula, display=True, log=False, params={}):
         print('Being solved by ECOS...', flush=True)
         time.sleep(0.2)
 
-    if len(bool_idx) + len(int_idx) == 0:
+    if len(int_idx) == 0:
         sol = ecos.solve(c, G, h, dims, A, b)
 
         num_constr, num_var = formula.linear.shape
@@ -102,7 +107,7 @@ def solve(formula, display=True, log=False, params={}):
         y = {'pi': pi, 'upi': upi, 'lpi': lpi}
     else:
         sol = ecos.solve(c, G, h, dims, A, b,
-                         bool_vars_idx=bool_idx, int_vars_idx=int_idx,
+                         int_vars_idx=int_idx,
                          mi_max_iters=100000000)
         y = None
 
